@@ -45,7 +45,8 @@ def describe(tier):
         rule='E2: keys %s; numbers %s x suffixes %s; colors: all 16 one-digit, 256 two-digit, 4096 three-digit forms, six-digit forms '
              'with every channel in %s (1000) plus every channel value 00..ff in each position (768), lower and upper case, alpha in %s (thorough: also every 6-digit color over 16 channel values, 4096 x 3 alphas, and all value pairs in every syntax); '
              'value sequences of <= %d values (colors from a %d-element representative subset when combined), both serialisations of the '
-             'optional separator, with and without `!`; syntaxes %s; option sets with <= %d deviations over %s. '
+             'optional separator, with and without `!`; syntaxes %s; option sets with <= %d deviations over %s. The cases are expanded `+`-joined in batches of 40 (one property per '
+             'line), every batch with members that match no snippet at the front, in the middle, at the end or nowhere, in turn. '
              'Transition = one more value / one option toggle.' % (
                  [k[0] for k in KEYS], [n[0] for n in NUM_LITS], SUFFIXES, CH6, b['alphas'], b['seq'], b['pair_colors'],
                  list(SYNTAX_FMT), b['deviations'], list(OPTION_SPACE)),
@@ -219,31 +220,63 @@ def check_line(case, line, syntax, opts):
     return None
 
 
-def run_batch(cases, syntax, opts, ctx):
+UNMATCHED = ('x9', 'k9')       # no stylesheet snippet key starts with x or k: dropped under the default stylesheet.skipUnmatched
+
+
+def with_unmatched(abbrs, where):
+    "the `+`-joined abbreviation with members that match no snippet at the front / in the middle / at the end / nowhere"
+    a = list(abbrs)
+    if where == 1:
+        a = [UNMATCHED[0]] + a
+    elif where == 2:
+        a = a[:len(a) // 2 + 1] + [UNMATCHED[1]] + a[len(a) // 2 + 1:] + [UNMATCHED[0]]
+    elif where == 3:
+        a = [UNMATCHED[0], UNMATCHED[1]] + a + [UNMATCHED[1]]
+    return '+'.join(a)
+
+
+def batch_ok(cases, abbrs, syntax, opts, where):
+    o = dict((k, v) for k, v in opts.items() if v is not None)
+    try:
+        out = expand(with_unmatched(abbrs, where), {'type': 'stylesheet', 'syntax': syntax, 'options': o})
+    except Exception:
+        return False
+    lines = out.split('\n')
+    return len(lines) == len(cases) and all(check_line(c, l, syntax, opts) is None for c, l in zip(cases, lines))
+
+
+def run_batch(cases, syntax, opts, ctx, where=0):
     abbrs = [serialize(c[0], c[3], c[4], c[5]) for c in cases]
     o = dict((k, v) for k, v in opts.items() if v is not None)
-    cfg = {'type': 'stylesheet', 'syntax': syntax, 'options': o}
-    lines = None
     ctx.evals += 1
-    try:
-        out = expand('+'.join(abbrs), cfg)
-        lines = out.split('\n')
-    except Exception:
-        lines = None
-    ok = lines is not None and len(lines) == len(cases)
-    if ok:
-        for c, l in zip(cases, lines):
-            if check_line(c, l, syntax, opts) is not None:
-                ok = False
-                break
-    if ok:
+    if batch_ok(cases, abbrs, syntax, opts, where):
         return
     ctx.extra['batches_rerun_case_by_case'] += 1
+    any_bad = False
     for c, a in zip(cases, abbrs):
         ctx.evals += 1
         bad = single(c, a, syntax, opts)
         if bad:
+            any_bad = True
             ctx.violation(bad[0] + suffix(o), dict(abbr=a, syntax=syntax, options=o, case=case_json(c)), bad[1])
+    if not any_bad:
+        # every member is right alone but the joined abbreviation is not "one property per line": shrink the batch greedily
+        keep = list(range(len(cases)))
+        i = 0
+        while i < len(keep) and len(keep) > 1:
+            trial = keep[:i] + keep[i + 1:]
+            if not batch_ok([cases[j] for j in trial], [abbrs[j] for j in trial], syntax, opts, where):
+                keep = trial
+            else:
+                i += 1
+        joined = with_unmatched([abbrs[j] for j in keep], where)
+        try:
+            out = expand(joined, {'type': 'stylesheet', 'syntax': syntax, 'options': o})
+        except Exception as e:
+            out = 'EXC:' + type(e).__name__
+        ctx.violation('joined:not-one-property-per-line' + suffix(o),
+                      dict(joined=[case_json(cases[j]) for j in keep], abbrs=[abbrs[j] for j in keep], where=where, syntax=syntax, options=o),
+                      dict(abbr=joined, actual=out))
 
 
 def suffix(o):
@@ -356,6 +389,7 @@ def run_shard(shard, ctx, tier):
     syntax, opts = shard['syntax'], shard['opts']
     k, of = shard['k'], shard['of']
     batch = []
+    nb = 0
     last = None
     for i, c in enumerate(gen_cases(shard['gen'], tier)):
         if i % of != k:
@@ -370,15 +404,23 @@ def run_shard(shard, ctx, tier):
         batch.append(c)
         last = c
         if len(batch) >= BATCH:
-            run_batch(batch, syntax, opts, ctx)
+            nb += 1
+            run_batch(batch, syntax, opts, ctx, nb % 4)
             batch = []
     if batch:
-        run_batch(batch, syntax, opts, ctx)
+        run_batch(batch, syntax, opts, ctx, (nb + 1) % 4)
     if last:
         ctx.sample(dict(abbr=serialize(last[0], last[3], last[4], last[5]), syntax=syntax, options=opts))
 
 
 def check_case(case):
+    if 'joined' in case:
+        cases = [case_from_json(j) for j in case['joined']]
+        opts = dict(case.get('options') or {})
+        if batch_ok(cases, case['abbrs'], case['syntax'], opts, case['where']):
+            return []
+        o = dict((k, v) for k, v in opts.items() if v is not None)
+        return [('joined:not-one-property-per-line' + suffix(o), dict(abbr=with_unmatched(case['abbrs'], case['where'])))]
     c = case_from_json(case['case'])
     opts = dict(case.get('options') or {})
     bad = single(c, case['abbr'], case['syntax'], opts)
@@ -386,5 +428,8 @@ def check_case(case):
 
 
 def repro(case):
+    if 'joined' in case:
+        return 'from emmet import expand\nprint(expand(%r, %r))\n' % (
+            with_unmatched(case['abbrs'], case['where']), {'type': 'stylesheet', 'syntax': case['syntax'], 'options': case.get('options') or {}})
     return 'from emmet import expand\nprint(expand(%r, %r))\n' % (
         case['abbr'], {'type': 'stylesheet', 'syntax': case['syntax'], 'options': case.get('options') or {}})
